@@ -22,7 +22,7 @@ def mk_Domain(f, N=None, prefix=''):
     pi = f.pi()
     dk = pi / (dr * N)
     r = f.array_of((N,), lambda i: (i + 1) * dr)
-    D = f.obj(DOM, _length=N, _dr=dr, _dk=dk, r=r,
+    D = f.make(DOM, kwargs=dict(length=2, dr=1), _length=N, _dr=dr, _dk=dk, r=r,
               k=f.array_of((N,), lambda j: (j + 1) * dk),
               DST_II_coeffs=f.array_of((N,), lambda i: 2 * pi * ((i + 1) * dr) * dr),
               DST_III_coeffs=f.array_of((N,), lambda j: ((j + 1) * dk) * dk / (4 * pi * pi)))
